@@ -1,7 +1,7 @@
 import json, os
 
 SPEC = {
-    "lean_modules": ["SemaModel.C20.Props"],
+    "lean_modules": ["SemaModel.C20.Props", "SemaModel.C20.Formula", "SemaModel.C20.FormulaPQ"],
     "lean_dirs": ["SemaModel/C20"],
     "harness": "c20",
     "harness_args": {"quick": [], "thorough": ["-full"]},
@@ -12,6 +12,8 @@ SPEC = {
            "T3: generated definitions and kernel model are executed against the real functions (distance.GetBitDistanceFn / GetFloatDistanceFn, the tagged export of encode and of the quantizer's distance closures) on the same op lines: exact float32 bit patterns for the bit metrics on every length, exact integers for the kernels on every length and slice offset. "
            "Agreement of the kernels with the scalar reference 'up to floating-point rounding' is a TEST, not a theorem (sweep: lengths x offsets 0..7 x value distributions vs float64 and scalar float32 references, worst-case rounding bound as tolerance).",
     "required_theorems": [
+        # formula theorems (Formula.lean, FormulaPQ.lean; notes/T1ext.md section 8): the expression trees generated from distance.go, puredist.go, product.go
+        "Sema.C20.dot_distance_formula", "Sema.C20.cosine_distance_formula", "Sema.C20.haversine_formula", "Sema.C20.haversine_formula_pair", "Sema.C20.dot_pure_formula", "Sema.C20.l2_pure_formula", "Sema.C20.cosine_pure_formula", "Sema.C20.dot_distance_pure_formula", "Sema.C20.pq_centroidDistIdx_formula", "Sema.C20.pq_flatCentroidSlice_formula", "Sema.C20.pq_distance_from_float_formula", "Sema.C20.pq_distance_from_point_formula",
         "Sema.C20.encode_length", "Sema.C20.encode_bits", "Sema.C20.encode_padding", "Sema.C20.encode_unfitted",
         "Sema.C20.hamming_eq_bitcount", "Sema.C20.hamming_encode", "Sema.C20.hamming_symm",
         "Sema.C20.jaccard_eq_bitcount", "Sema.C20.jaccard_encode", "Sema.C20.jaccard_union_zero", "Sema.C20.jaccard_union_pos", "Sema.C20.jaccard_symm",
